@@ -92,6 +92,13 @@ class CFG:
             body = self._seq(st.body, t, brk=nxt, cont=t)
             self.edges.append(Edge(t, body))
             self.edges.append(Edge(t, after))
+            if isinstance(st.iter, (ast.List, ast.Tuple)) and st.iter.elts and \
+                    not any(isinstance(e, ast.Starred) for e in st.iter.elts):
+                # a loop over a non-empty literal runs at least once: separate entry node without the skip edge
+                first = Node(len(self.nodes), "iter", st)
+                self.nodes.append(first)
+                self.edges.append(Edge(first.id, body))
+                return first.id
             return t
         if isinstance(st, ast.Return):
             n = self._new("stmt", st)
